@@ -18,7 +18,9 @@ CHECK = {
     "props": "Props/C13.v",
     "theorems": ["c13_owner_pointer_valid", "c13_unhinted_pointer_valid", "c13_anchor_valid", "c13_scan_sound",
                  "c13_disabled_owner", "c13_disabled_unhinted", "c13_no_compressible_component",
-                 "c13_srv_ch_a_components", "c13_uncompressible_plain"],
+                 "c13_srv_ch_a_components", "c13_uncompressible_plain",
+                 "c13_owner_pointer_into_label_starts", "c13_unhinted_pointer_into_label_starts",
+                 "c13_anchor_invariant_all_ops", "c13_message_pointers_valid_partial"],
     "allowed_axioms": [],
     "suites": [{
         "name": "writer",
